@@ -411,7 +411,18 @@ pub fn judge(case: &Case, keep_modules: bool) -> Result<Judged, String> {
         i1.events = Some(&mut cb);
         let r1 = i1.run_export("main", &args).map_err(|e| format!("interpreter (original): {:?}", e))?;
         let i2 = Interp::new(&inst, FUEL);
-        let r2 = i2.run_export("main", &args).map_err(|e| format!("interpreter (instrumented): {:?}", e))?;
+        let r2 = match i2.run_export("main", &args) {
+            Ok(r) => r,
+            // the original finished (programs terminate by construction, within a few hundred steps);
+            // an instrumented module that exhausts a budget of 20 000 steps does not behave like it
+            Err(InterpError::Fuel) => {
+                j.executions += 2;
+                j.steps += r1.steps + FUEL;
+                j.clauses.push(Clause { mode: None, sig: format!("behaviour does-not-terminate [{}]", plan_modes(&case.plan)), detail: format!("input ({},{}): original finished in {} steps, instrumented module exceeded {} steps", a, b, r1.steps, FUEL) });
+                continue;
+            }
+            Err(e) => return Err(format!("interpreter (instrumented): {:?}", e)),
+        };
         j.executions += 2;
         j.steps += r1.steps + r2.steps;
         if r1.result != r2.result {
@@ -691,6 +702,11 @@ pub fn check(id: &'static str, tier: Tier) -> i32 {
                 let gr = g(if results == 0 { tier.pick(3, 4) } else { tier.pick(2, 3) }, 3, &[Mark, Br, BrIf, Ret, Unr, Throw, Call, RetCall, Div], true, results == 0, true, true, if tier == Tier::Quick { &[Cond::A, Cond::Ctr] } else { CONDS }, results);
                 fams.push(Family { name: ["exits results=[]", "exits results=[i32]", "exits results=[i32,i64]"][results as usize], programs: programs(&gr, &callees), modes: modes.clone(), probes: tier.pick(2, 4), same_site_twice: true });
             }
+            // one node more, over the exit-relevant statements only (no loops, one condition): reaches
+            // `if c {transfer} else {exit}` and exits behind dead code, which the lowering has to treat
+            // per arm (seeded change C17b)
+            let gr = g(tier.pick(4, 5), 3, &[Mark, Br, Ret, Unr, RetCall, Throw], true, false, true, true, &[Cond::A], 0);
+            fams.push(Family { name: "exits in both arms and behind dead code", programs: programs(&gr, &callees), modes: modes.clone(), probes: tier.pick(1, 2), same_site_twice: false });
             let gr = g(tier.pick(2, 3), 3, &[Mark, BrTable, Ret], true, false, true, false, &[Cond::A, Cond::B], 0);
             fams.push(Family { name: "br_table to function label", programs: programs(&gr, &callees), modes: modes.clone(), probes: 2, same_site_twice: false });
             (fams, modes, true)
